@@ -259,3 +259,20 @@ def _subst_part(p, pairs):
     if p[0] == "big":
         return ("big", p[1], z3.substitute(p[2], *pairs), [_subst_part(x, pairs) for x in p[3]])
     raise AssertionError(p)
+
+
+class ArrDict:
+    """a mapping with opaque (Val) keys as two z3 arrays: present: Val->Bool, vals: Val->Val"""
+
+    def __init__(self, present, vals):
+        self.present, self.vals = present, vals
+
+    def __repr__(self):
+        return "<arrdict>"
+
+
+class HeapListRef:
+    """a list living in the heap under HeapMap `hm` at key term `key`"""
+
+    def __init__(self, hm, key):
+        self.hm, self.key = hm, key
